@@ -68,7 +68,16 @@ func c13point(c *h.Ctx, p orb.Point, z maptile.Zoom, strict bool) {
 		}
 		q[1] = (b.Min[1] + b.Max[1]) / 2
 	}
-	if q[0] < b.Min[0]-slack || q[0] > b.Max[0]+slack || q[1] < b.Min[1]-slack || q[1] > b.Max[1]+slack {
+	// the column is a linear function of the longitude: only a few ulps of 180 degrees of rounding are possible
+	// there, at any zoom; the row goes through log/tan and back through atan/exp
+	xslack := slack
+	if !strict {
+		xslack = 1e-12
+	}
+	if ox := math.Max(b.Min[0]-q[0], q[0]-b.Max[0]); ox > 0 {
+		c.Max("longitude_containment_overshoot_deg", ox, func() string { return sv(p) + " z=" + sv(z) })
+	}
+	if q[0] < b.Min[0]-xslack || q[0] > b.Max[0]+xslack || q[1] < b.Min[1]-slack || q[1] > b.Max[1]+slack {
 		c.Fail("", "the bound of the tile found for a point does not contain the point", map[string]interface{}{"point": sv(p), "zoom": z, "tile": sv(t), "bound": sv(b), "strict": strict})
 	}
 	over := math.Max(math.Max(b.Min[0]-q[0], q[0]-b.Max[0]), math.Max(b.Min[1]-q[1], q[1]-b.Max[1]))
@@ -395,7 +404,7 @@ func init() {
 				Name: "points", Count: h.Fixed(200000, 60000000),
 				Run: func(c *h.Ctx, idx uint64, r *h.Rand) {
 					var p orb.Point
-					switch r.Intn(10) {
+					switch r.Intn(11) {
 					case 0:
 						p = orb.Point{180, r.Uniform(-90, 90)}
 					case 1:
@@ -408,6 +417,26 @@ func init() {
 						p = []orb.Point{b.Min, b.Max, b.LeftTop(), b.RightBottom()}[r.Intn(4)]
 					case 4:
 						p = orb.Point{float64(r.Range(-180, 180)), float64(r.Range(-90, 90))}
+					case 6:
+						// a hair inside / outside a tile edge: 1e-10, 1e-12 of a tile width or a few ulps from a corner
+						t := randTile(r, 24)
+						b := t.Bound()
+						p = []orb.Point{b.Min, b.Max, b.LeftTop(), b.RightBottom()}[r.Intn(4)]
+						w := b.Max[0] - b.Min[0]
+						switch r.Intn(3) {
+						case 0:
+							p[0] += []float64{-1e-10, 1e-10, -1e-12, 1e-12, -3e-10, 5e-11}[r.Intn(6)] * w
+						case 1:
+							for k := r.Range(1, 3); k > 0; k-- {
+								p[0] = math.Nextafter(p[0], []float64{-1000, 1000}[r.Intn(2)])
+							}
+						default:
+							p[1] += []float64{-1e-10, 1e-10, -1e-12, 1e-12}[r.Intn(4)] * (b.Max[1] - b.Min[1])
+						}
+						if p[0] < -180 || p[0] > 180 {
+							p[0] = math.Max(-180, math.Min(180, p[0]))
+						}
+						c.Count("points_a_hair_from_a_tile_edge", 1)
 					case 5:
 						// "any latitude": far beyond the poles, the largest finite values, infinities
 						p = orb.Point{r.Uniform(-180, 180), []float64{90.5, 94, 95, 100, 135, 180, 200, 270, 360, 1e6, 1e300, math.MaxFloat64, math.Inf(1)}[r.Intn(13)]}
